@@ -177,12 +177,20 @@ static void List_Del(var self) {
 static void List_Assign(var self, var obj) {
   struct List* l = self;
   
+  /* look at the source before the old contents are given up */
+  var type = implements_method(obj, Iter, iter_type) ? iter_type(obj) : Ref;
+  size_t nargs = len(obj);
+  
+  if (not implements_method(obj, Get, get)) {
+    throw(ClassError, "Cannot assign to List from '%s', it has no 'get'", type_of(obj));
+    return;
+  }
+  
   List_Clear(self);
   
-  l->type = implements_method(obj, Iter, iter_type) ? iter_type(obj) : Ref;
+  l->type = type;
   l->tsize = size(l->type);
   
-  size_t nargs = len(obj);
   for (size_t i = 0; i < nargs; i++) {
     List_Push(self, get(obj, $I(i)));
   }
